@@ -271,9 +271,12 @@ class CellObj:
                     t = s.inner[1]
                     kind = 'HASHMAPAUG' if t.kind == 'HASHMAPAUGE' else 'HASHMAP'
                     toks = [Tok(kind, n=t.n, x=t.x, y=t.y, name=t.name)]
-                r = AbsSlice(it_, s.db, toks, s.env, str(s.name))
+                r = AbsSlice(it_, s.db, toks, s.env, str(s.name or '^[...]'))
                 r.discr = dict(s.discr or {})
                 r.depth_of = dict(getattr(s, 'depth_of', {}))
+                if not hasattr(it_, 'subslices'):
+                    it_.subslices = []
+                it_.subslices.append(r)
                 return r
             return Native(bp, 'cell.begin_parse')
         if a in ('copy', 'to_builder'):
